@@ -12,17 +12,11 @@ Model of the EMITTER side of `pytoniq_core/boc/cell.py`: `Cell.order`, `Cell.ser
 -/
 import TonVerif.Model.Cell
 import TonVerif.Model.Crc
+import TonVerif.Model.PCell
 import Std.Data.HashMap
 import Std.Data.HashSet
 
 namespace TonVerif.Model
-
-/-- a constructed `Cell` object -/
-inductive PCell where
-  | mk (info : CellInfo) (refs : List PCell)
-
-def PCell.info : PCell → CellInfo | .mk i _ => i
-def PCell.refs : PCell → List PCell | .mk _ r => r
 
 /-- dict / set key of a cell: `__hash__` -/
 def PCell.key (c : PCell) : Nat := c.info.pyHash
@@ -30,9 +24,6 @@ def PCell.key (c : PCell) : Nat := c.info.pyHash
 /-- `self._descriptors` (computed in `__init__` with the cell's own level mask) -/
 def PCell.desc (c : PCell) : Option Bytes :=
   descriptors c.info.nrefs (c.info.kind != kOrdinary) c.info.bits.length c.info.mask
-
-/-- `self._data_bytes` -/
-def PCell.data (c : PCell) : Bytes := dataBytes c.info.bits
 
 mutual
   /-- build the object graph of a tree of cells (`Cell.__init__` bottom-up) -/
